@@ -34,7 +34,8 @@ def make_world(ex, shape, real):
 
 def body_of(m, t, kind):
     if t == "list":
-        return f"return [recurse(a) for a in x]"
+        # recurse called directly / passed as a value / called with star-arguments: it stands for the bound method in all three
+        return {"ret": "return [recurse(a) for a in x]", "next": "return list(map(recurse, x))"}.get(kind, "return [recurse(*[a]) for a in x]")
     if kind == "next":
         return f"return ({m}, call_next(x))"
     return f"return {m}"
@@ -43,9 +44,11 @@ def body_of(m, t, kind):
 def gen_source(shape):
     """returns (source, tables) ; tables[class index] = ordered list of method ids (reference table)"""
     classes = shape["classes"]
-    lines = ["from ovld import OvldBase, OvldMC, extend_super, recurse, call_next", ""]
+    lines = ["from ovld import OvldBase, OvldMC, extend_super, recurse, call_next, ovld", ""]
     mid = 0
     tables = {}
+    attrs = {}
+    indict = {}
     defs = {}     # method id -> (type, kind)
     for ci, c in enumerate(classes):
         bases = [f"C{b}" for b in c["bases"]]
@@ -59,11 +62,11 @@ def gen_source(shape):
             hdr = f"class C{ci}({', '.join(bases)}):"
         lines.append(hdr)
         own = []
-        first = True
-        for (t, kind) in c["defs"]:
-            if first and c.get("extend"):
-                lines.append("    @extend_super")
-            first = False
+        for di, (t, kind) in enumerate(c["defs"]):
+            if c.get("extend") and di == min(c.get("extend_at", 0), len(c["defs"]) - 1):
+                lines.append("    @extend_super")          # (any one of the same-named definitions may carry the marker)
+            elif c.get("deco_at") == di:
+                lines.append("    @ovld(priority=0)")     # an explicitly decorated definition among plain ones
             lines.append(f"    def f(self, x: {t}):")
             lines.append(f"        LOG.append(({mid}, (x,), {{}}, self))")
             lines.append(f"        {body_of(mid, t, kind)}")
@@ -79,27 +82,59 @@ def gen_source(shape):
                 tab = [o for o in tab if defs[o][0] != defs[m][0]] + [m]
             return tab
 
-        # reference table
-        if not own:
-            # plain attribute inheritance: the first base (in MRO order) that has f
-            tab = None
-            for b in mro(ci, classes):
-                if b != ci and tables.get(b) is not None and classes[b]["defs"]:
-                    tab = tables[b]
-                    break
-            tables[ci] = tab
-        elif c.get("extend") and c["root"] == "sub":
-            tab = []
-            for b in c["bases"]:
-                bt = tables.get(b)
-                if isinstance(bt, tuple):      # a base whose f is an ordinary function: wrapped, dispatches on its annotation
-                    bt = [bt[1]]
-                tab = replace(tab, bt or [])
-            tables[ci] = replace(tab, own)
-        elif len(own) == 1:
-            tables[ci] = ("plain", own[0])     # a single definition is an ordinary method: no dispatch at all
+        def as_table(at):
+            return [at["plain"]] if at["kind"] == "plain" else list(at["table"])
+
+        # reference: what the attribute f of this class is (kind plain|ovld, table, marker = still carries extend_super, in its own __dict__)
+        marked = bool(c.get("extend")) and bool(own)
+        marked_first = marked and min(c.get("extend_at", 0), len(own) - 1) == 0     # the marker only survives on the function object of a FIRST definition
+        at = None
+        if c["root"] != "sub":
+            if not own:
+                at = None
+            elif marked:
+                at = dict(kind="ovld", table=replace([], own), marker=marked_first)      # nothing to extend: the marker stays on the function
+            elif (len(own) == 1 and c.get("deco_at") is None) or c["root"] == "plain":
+                at = dict(kind="plain", plain=own[-1], marker=False)             # a single definition is an ordinary method: no dispatch at all
+            else:
+                at = dict(kind="ovld", table=replace([], own), marker=False)
         else:
-            tables[ci] = replace([], own)
+            vals = [attrs.get(b) for b in c["bases"]]
+            ovlds = [v for v in vals if v is not None and v["kind"] == "ovld"]
+            later_marked = [v for v in ovlds[1:] if v["marker"]]
+            prepop = None
+            if later_marked:
+                # a later base whose f still carries extend_super (a mixin class): merged into the first overloaded f when the class is prepared
+                tab = list(ovlds[0]["table"])
+                for v in later_marked:
+                    tab = replace(tab, v["table"])
+                for v in vals:
+                    if v is not None and v["kind"] == "plain":
+                        tab = replace(tab, [v["plain"]])
+                prepop = dict(kind="ovld", table=tab, marker=False)
+            if prepop is not None:
+                at = dict(prepop, table=replace(prepop["table"], own)) if own else prepop
+            elif not own:
+                at = None
+            elif marked:
+                tab = []
+                have = [v for v in vals if v is not None]
+                for v in have:
+                    tab = replace(tab, as_table(v))
+                at = dict(kind="ovld", table=replace(tab, own), marker=(not have) and marked_first)
+            elif len(own) == 1 and c.get("deco_at") is None:
+                at = dict(kind="plain", plain=own[0], marker=False)
+            else:
+                at = dict(kind="ovld", table=replace([], own), marker=False)
+        indict[ci] = at is not None
+        if at is None:
+            # plain attribute inheritance: the first class in MRO order that has f in its own namespace
+            for b in mro(ci, classes):
+                if b != ci and indict.get(b):
+                    at = attrs[b]
+                    break
+        attrs[ci] = at
+        tables[ci] = None if at is None else (("plain", at["plain"]) if at["kind"] == "plain" else at["table"])
     for m, (t, kind) in defs.items():
         lines.append(f"def r{m}(self, x: {t}):")
         lines.append(f"    LOG.append(({m}, (x,), {{}}, self))")
@@ -191,29 +226,35 @@ def gen_shapes(tier, seed):
 
     def defs(k, may_delegate=True):
         ts = rng.sample(TYPES if may_delegate else TYPES[:4], k)
-        return [[t, rng.choice(("ret", "ret", "next")) if may_delegate else "ret"] for t in ts]
+        return [[t, rng.choice(("ret", "ret", "next", "star") if t == "list" else ("ret", "ret", "next")) if may_delegate else "ret"] for t in ts]
 
     while len(shapes) < N:
         k0 = rng.choice((1, 2, 3))
-        classes = [dict(root=rng.choice(("base", "mc")), bases=[], defs=defs(k0, k0 > 1), extend=False)]
+        ext0 = rng.random() < 0.25                 # extend_super with nothing to extend: the marker stays (a class meant to be mixed in)
+        deco0 = rng.randrange(k0) if (not ext0 and rng.random() < 0.2) else None
+        classes = [dict(root=rng.choice(("base", "mc")), bases=[], defs=defs(k0, k0 > 1 or ext0 or deco0 is not None), extend=ext0,
+                        extend_at=rng.randrange(k0), deco_at=deco0)]
         ncls = rng.choice((2, 3, 4, 5))
         plain_idx = None
         while len(classes) < ncls:
             i = len(classes)
             r = rng.random()
             if r < 0.15 and plain_idx is None:
-                classes.append(dict(root="plain", bases=[], defs=defs(1, False), extend=False))
+                extp = rng.random() < 0.5
+                classes.append(dict(root="plain", bases=[], defs=defs(1, extp), extend=extp))
                 plain_idx = i
                 continue
             cands = [j for j in range(i) if classes[j]["root"] != "plain"]
             b = [rng.choice(cands)]
-            if rng.random() < 0.3:
+            if rng.random() < 0.4:
                 others = [j for j in range(i) if j not in b]
                 if others:
                     b.append(rng.choice(others))
             nd = rng.choice((0, 1, 1, 2))
             ext = nd > 0 and rng.random() < 0.7
-            classes.append(dict(root="sub", bases=b, defs=defs(nd, ext or nd > 1), extend=ext))
+            deco = rng.randrange(nd) if (nd and not ext and rng.random() < 0.25) else None
+            classes.append(dict(root="sub", bases=b, defs=defs(nd, ext or nd > 1 or deco is not None), extend=ext, extend_at=rng.randrange(nd) if nd else 0,
+                                deco_at=deco))
         # the hierarchy must have a valid MRO and OvldMC bases must come first when mixed with a plain class
         try:
             for i in range(len(classes)):
@@ -242,13 +283,14 @@ def main(tier, seed):
     return runner.finish(
         PID, tier, seed, t0, results,
         bounds=dict(argument_classes=3, user_classes="2-5 per program (OvldBase or metaclass=OvldMC root, subclasses with 1-2 bases, at most one plain "
-                    "mixin class without the metaclass)", definitions="0-3 same-named definitions per class body over K0/K1/K2/object/list, "
-                    "extend_super on the first definition of 70% of the subclasses that define the method",
-                    bodies="return | call_next(x) | [recurse(a) for a in x]", probes="every class x {K0(), K1(), K2(), object(), nested list}",
+                    "mixin class without the metaclass)", definitions="0-3 same-named definitions per class body over K0/K1/K2/object/list (one of them possibly decorated @ovld(priority=0)), "
+                    "extend_super on any one definition of 70% of the subclasses that define the method, of 25% of the roots and 50% of the plain mixin "
+                    "classes (nothing to extend: the marker survives and a later class listing it as a non-first base merges it)",
+                    bodies="return | call_next(x) | [recurse(a) for a in x] | list(map(recurse, x)) | [recurse(*[a]) for a in x]", probes="every class x {K0(), K1(), K2(), object(), nested list}",
                     programs="random sample (seeded)", hierarchy="every partial order on the argument classes (symbolic)"),
         rule="one state = one program x class of argument hierarchies; non-trivial = >= 2 probes entered a method",
         stubs=["SymMeta argument classes"],
-        dont_care=["extend_super on a later (not the first) definition of a class body", "priorities inside class bodies"],
+        dont_care=["priorities other than 0 inside class bodies"],
         assumptions=["the program quantifier is enumerated (sampled); the reference table is computed by the generator from the documented rule"],
         shapes_total=total, shapes_sampled=sampled, mod=sys.modules[__name__],
     )
